@@ -11,6 +11,7 @@ import (
 	"sort"
 	"sync"
 	"sync/atomic"
+	"time"
 
 	"github.com/spikeekips/mitum/base"
 	"github.com/spikeekips/mitum/isaac"
@@ -176,6 +177,10 @@ func (s *seq) setLast(m int64, mh int) {
 
 func (s *seq) clean() {
 	_, _ = s.e.pool.VerifCleanProposals()
+	// the fact hash covers the proposal time at millisecond precision: let the clock move on, as it has when the
+	// periodic clean-up runs, so that a proposal made again for a forgotten position is a new fact (the model's
+	// fresh identifier)
+	time.Sleep(3 * time.Millisecond)
 	s.hist = append(s.hist, jstep{"op": "cleanproposals"})
 	s.terms = append(s.terms, "IClean")
 	for p := range s.given {
